@@ -165,6 +165,7 @@ pub fn build_universe_with(
     // possible type): dropped when rejected; if one is accepted it is an accepted operation and its responses are checked
     let mut corpus = corpus;
     corpus.extend(must_reject_corpus());
+    let corpus_len = corpus.len();
     let mut corpus = corpus.into_iter();
     let total = n + corpus.len();
     while cases.len() < total && attempts < total * 3 {
@@ -246,7 +247,12 @@ pub fn build_universe_with(
         // as the text of a `#[graphql(...)]` attribute (keys in random positions, booleans spelled out, flags next
         // to `key = value` pairs) and the implementation's options come from the derive's own option builder applied to
         // that text; model and oracles are told the options that were written.
-        if !from_corpus && !doc.ops.is_empty() && rng.chance(12) {
+        // (the first four random cases always, two of them with `skip_serializing_none`)
+        let n_random = cases.iter().filter(|c: &&WCase| c.id >= corpus_len).count();
+        if !from_corpus && n_random < 4 {
+            opts.skip_none = n_random % 2 == 0;
+        }
+        if !from_corpus && !doc.ops.is_empty() && (n_random < 4 || rng.chance(12)) {
             let op = doc.ops[rng.range(0, doc.ops.len() - 1)].clone();
             if deliver_by_derive(&mut opts, &op.name, &qtext, &ctx, cases.len(), rng) {
                 rep.count("delivery:derive-attribute");
